@@ -261,6 +261,11 @@ func (u *Upstream) WriteDataPoints(ctx context.Context, dataID *message.DataID, 
 		return errors.New("draining")
 	}
 
+	// the flush loop reads the group after this call has returned, when the caller may already be
+	// reusing its slice for the next batch: hand it a copy
+	points := make([]*message.DataPoint, len(dps))
+	copy(points, dps)
+
 	select {
 	case <-u.ctx.Done():
 		return errors.ErrStreamClosed
@@ -268,7 +273,7 @@ func (u *Upstream) WriteDataPoints(ctx context.Context, dataID *message.DataID, 
 		return ctx.Err()
 	case u.dpgCh <- &DataPointGroup{
 		DataID:     dataID,
-		DataPoints: dps,
+		DataPoints: points,
 	}:
 	}
 
